@@ -387,3 +387,36 @@ func statelessRule(e *Env, rule string, rels ...string) {
 }
 
 var _ = packages.NeedName
+
+// reachableNames: the named functions and every function of the same package they reach by static
+// calls, as "Func" / "Type.Method" names (so that helper functions are found by reachability, not by name).
+func reachableNames(e *Env, rel string, roots ...string) []string {
+	seen := map[string]bool{}
+	var out []string
+	for _, r := range roots {
+		fn := e.P.Func(rel, r)
+		if fn == nil {
+			if !seen[r] {
+				seen[r] = true
+				out = append(out, r)
+			}
+			continue
+		}
+		for _, f := range pkgCallees(fn) {
+			if f.Parent() != nil || f.Syntax() == nil {
+				continue
+			}
+			name := f.Name()
+			if f.Signature.Recv() != nil {
+				if n := namedOf(f.Signature.Recv().Type()); n != nil {
+					name = n.Obj().Name() + "." + f.Name()
+				}
+			}
+			if !seen[name] {
+				seen[name] = true
+				out = append(out, name)
+			}
+		}
+	}
+	return out
+}
